@@ -288,7 +288,7 @@ func (w *World) EncSummaryOf(f *types.Func) *EncSum {
 		}
 		size = size.Sub(bv.Off)
 		if first {
-			es.Size, es.Extent, es.Recs, es.Origin = size, b.Extent, b.Recs, b.Origin
+			es.Size, es.Extent, es.Recs, es.Origin = size, b.Extent, mergeByteSplit(b.Recs), b.Origin
 			if b.Origin == "field" || b.SrcType == "field-append" {
 				es.Aliased = b.Src
 			}
@@ -909,4 +909,71 @@ func assumeErrNil(t *Term) *Term {
 		}
 	}
 	return t
+}
+
+// mergeByteSplit: a multi-byte integer written byte by byte (data[2], data[3] = byte(x>>8), byte(x)) is the
+// same record as PutUint16(data[2:4], x). Adjacent single-byte records under the same guard whose sources
+// are the successive bytes of one value, most significant first (or last), are merged into one integer
+// record of that value.
+func mergeByteSplit(recs []*Rec) []*Rec {
+	byteOf := func(src string) (val string, shift int, ok bool) {
+		s := src
+		if strings.HasPrefix(s, "wrap[uint8](") && strings.HasSuffix(s, ")") {
+			s = s[len("wrap[uint8](") : len(s)-1]
+		}
+		if strings.HasPrefix(s, "opq((") && strings.HasSuffix(s, "))") {
+			inner := s[len("opq(") : len(s)-1] // (X)>>(k)
+			if i := strings.LastIndex(inner, ")>>("); i > 0 && strings.HasPrefix(inner, "(") && strings.HasSuffix(inner, ")") {
+				var k int
+				if _, err := fmt.Sscanf(inner[i+4:len(inner)-1], "%d", &k); err == nil && k%8 == 0 && k > 0 {
+					return inner[1:i], k, true
+				}
+			}
+			return "", 0, false
+		}
+		if s != src { // wrap[uint8](X): the low byte
+			return s, 0, true
+		}
+		return "", 0, false
+	}
+	var out []*Rec
+	for i := 0; i < len(recs); i++ {
+		r := recs[i]
+		merged := false
+		if r.Kind == "byte" && r.Off != nil && r.W != nil && r.W.IsConst() && r.W.C == 1 {
+			if v0, sh0, ok := byteOf(r.Src); ok && sh0 > 0 {
+				n := sh0/8 + 1
+				if i+n <= len(recs) && (n == 2 || n == 4 || n == 8) {
+					good := true
+					for j := 1; j < n; j++ {
+						q := recs[i+j]
+						vj, shj, okj := byteOf(q.Src)
+						if !okj && j == n-1 && q.Src == v0 {
+							// the low byte written as byte(x): the conversion leaves no trace in the source text
+							vj, shj, okj = v0, 0, true
+						}
+						if q.Kind != "byte" || !okj || vj != v0 || shj != sh0-8*j || q.Guard != r.Guard || q.Loop != r.Loop || !q.Off.Equal(r.Off.AddC(int64(j))) {
+							good = false
+							break
+						}
+					}
+					if good {
+						nr := *r
+						nr.Kind, nr.Order, nr.W, nr.Src = "int", "be", Const(int64(n)), v0
+						nr.Val = nil
+						if strings.HasPrefix(v0, "val(") && strings.HasSuffix(v0, ")") && !strings.ContainsAny(v0[4:len(v0)-1], "() +") {
+							nr.Val = ValOf(v0[4 : len(v0)-1])
+						}
+						out = append(out, &nr)
+						i += n - 1
+						merged = true
+					}
+				}
+			}
+		}
+		if !merged {
+			out = append(out, r)
+		}
+	}
+	return out
 }
